@@ -269,6 +269,24 @@ def gen_round(rng: random.Random, kind: str) -> dict:
     return p
 
 
+def gen_pre(rng: random.Random, copy: Optional[int] = None, rigid: Optional[bool] = None) -> dict:
+    """a similarity transform of everything built so far, applied with the library's own scale / rotate / translate
+    before the next shape is attached (a part brought to size, or a re-sized copy of it, is built on):
+    `copy` = the user goes on with copies of the shapes (chops made so far are carried by the copies)"""
+    pre: Dict[str, Any] = {
+        "scale": rng.choice(["1/2", "2/3", "3/2", "2"]),
+        "sorigin": [rq(rng, -2, 2, 4) for _ in range(3)],
+        "copy": rng.randint(0, 1) if copy is None else copy,
+    }
+    if rng.random() < 0.5 if rigid is None else rigid:
+        while True:
+            ax = [rng.randint(-3, 3) for _ in range(3)]
+            if any(ax):
+                break
+        pre.update(angle=rq(rng, 0.3, 2.8), axis=ax, origin=[rq(rng, -2, 2, 4) for _ in range(3)], shift=[rq(rng, -2, 2, 4) for _ in range(3)])
+    return pre
+
+
 def gen_chain(rng: random.Random) -> dict:
     """a base round shape and 1..3 further shapes attached to free sides of earlier ones"""
     base = rng.choice(["Cylinder", "Cylinder", "Frustum", "Elbow", "ExtrudedRing"])
@@ -309,6 +327,8 @@ def gen_chain(rng: random.Random) -> dict:
             link.update(T=rq(rng, 0.2, 1))
         elif op == "ExtrudedRing.contract":
             link.update(f=rng.choice(["1/4", "1/2", "3/4"]))
+        if rng.random() < 0.35:
+            link["pre"] = gen_pre(rng)
         links.append(link)
         nk = op.split(".")[0]
         kinds.append(nk)
@@ -421,6 +441,7 @@ def thin_features(rng: random.Random, c: dict) -> None:
         p["amount"] = THIN
     elif k == "Chain":
         for link in p["links"]:
+            link.pop("pre", None)
             if "T" in link:
                 link["T"] = THIN
             elif "L" in link:
@@ -739,6 +760,20 @@ def build_chain(case: dict, fr: Frame, kws) -> Built:
     shapes = [bb.shapes[0]]
     b.calls = list(bb.calls)
     for link in p["links"]:
+        pre = link.get("pre")
+        if pre:
+            if pre.get("copy"):
+                # the chops asked for so far are made now: the copies carry them
+                for call in b.calls:
+                    call()
+                b.calls = []
+                shapes = [s.copy() for s in shapes]
+            for s in shapes:
+                if "angle" in pre:
+                    ax = np.array([float(a) for a in pre["axis"]])
+                    s.rotate(fl(pre["angle"]), ax / np.linalg.norm(ax), [fl(x) for x in pre["origin"]])
+                    s.translate([fl(x) for x in pre["shift"]])
+                s.scale(fl(pre["scale"]), [fl(x) for x in pre["sorigin"]])
         src = shapes[link["src"]]
         op = link["op"]
         start = bool(link["start"])
@@ -769,7 +804,9 @@ def build_chain(case: dict, fr: Frame, kws) -> Built:
             s = cb.ExtrudedRing.expand(src, fr.L(link["T"]))
             b.calls.append(lambda s=s: s.chop_radial(**dict(kws[1])))
         elif op == "ExtrudedRing.contract":
-            s = cb.ExtrudedRing.contract(src, src.sketch_1.inner_radius * fl(link["f"]))
+            # the inner radius as the geometry has it now (not what the sketch remembers)
+            rin = float(np.linalg.norm(np.asarray(src.sketch_1.inner_radius_point) - np.asarray(src.sketch_1.center)))
+            s = cb.ExtrudedRing.contract(src, rin * fl(link["f"]))
             b.calls.append(lambda s=s: s.chop_radial(**dict(kws[1])))
         elif op == "Cylinder.fill":
             s = cb.Cylinder.fill(src)
@@ -1030,7 +1067,9 @@ class C11(core.Check):
         "counter-clockwise, blocks right-handed, rim on the circle; over R with the source's constants); WrappedDisk, "
         "Oval and Grid are modelled and compared but have no theorem; Elbow, Hemisphere, rings beyond one segment, "
         "spline sketches, the cusp shear of the joints and the distinctness of the generated points stay validator-only; "
-        "joints are proved for 2..6 branches and tested beyond."
+        "joints: a uniform hand model for every branch count, equal to the probes for 2..6 (decide), compared with the "
+        "implementation for every generated count (2..7 quick, 8, 9 thorough), choppable for 2..12 by evaluation; no "
+        "induction over the branch count."
     )
 
     # ------------------------------------------------------------------ generators
@@ -1039,7 +1078,7 @@ class C11(core.Check):
         cases: List[dict] = []
         if tier == "quick":
             plan = {k: 4 for k in kinds}
-            plan.update(ExtrudedShape=4, RevolvedShape=6, LoftedShape=6, ExtrudedStack=6, TransformedStack=6, RevolvedStack=5, Chain=11, NJoint=3, ExtrudedRing=6, RevolvedRing=5)
+            plan.update(ExtrudedShape=4, RevolvedShape=6, LoftedShape=6, ExtrudedStack=6, TransformedStack=6, RevolvedStack=5, Chain=9, NJoint=1, ExtrudedRing=6, RevolvedRing=5)
         else:
             plan = {k: 40 for k in kinds}
             plan.update(ExtrudedShape=150, RevolvedShape=80, LoftedShape=80, ExtrudedStack=80, TransformedStack=60, RevolvedStack=50, Chain=300, NJoint=60)
@@ -1108,6 +1147,7 @@ class C11(core.Check):
                 c = gen_case(rng, "NJoint")
                 c["p"]["k"] = k
                 cases.append(c)
+            nsys = 0
             for base, op, start in [
                 ("Cylinder", "Cylinder.chain", 0), ("Cylinder", "Cylinder.chain", 1), ("Cylinder", "Frustum.chain", 0),
                 ("Cylinder", "Frustum.chain", 1), ("Cylinder", "Elbow.chain", 0), ("Cylinder", "Elbow.chain", 1),
@@ -1133,9 +1173,19 @@ class C11(core.Check):
                     link.update(T=rq(rng, 0.2, 1))
                 elif op == "ExtrudedRing.contract":
                     link.update(f=rng.choice(["1/4", "1/2", "3/4"]))
+                # every chaining constructor is used on a source that was brought to size with scale() after its
+                # creation, alternately on the shape itself and on a copy of it (every third one as it was created)
+                nsys += 1
+                if nsys % 3:
+                    link["pre"] = gen_pre(rng, copy=nsys % 2, rigid=bool(nsys % 4 == 1))
                 c["p"] = {"base": base, "bp": bp, "links": [link]}
                 cases.append(c)
         if tier == "thorough":
+            # joints beyond the probe tables and beyond the quick tier: 8 and 9 branches against the uniform joint model
+            for k in (8, 9, 8, 9):
+                c = gen_case(rng, "NJoint")
+                c["p"]["k"] = k
+                cases.append(c)
             # every sketch class in every lofted / stacked form at least twice
             for sk in SKETCHES:
                 for k in LOFTED + STACKS:
@@ -1280,6 +1330,7 @@ class C11(core.Check):
                 "c11.pts FourCoreDisk 0/1,0/1,0/1 1/1,0/1,0/1 0/1,0/1,2/1 7/10 4/5 9/10",
                 "c11.cyl FourCoreDisk 0/1,0/1,0/1 0/1,0/1,1/1 1/1,0/1,0/1 0/1 7/10 4/5 9/10",
                 "c11.gridpts 0/1 0/1 1/1 1/1 0 2",
+                "c11.joint 1",
             ]
         if case["kind"] == "Pts":
             return [impl["req"]] if "req" in impl else []
@@ -1299,6 +1350,8 @@ class C11(core.Check):
                 reqs.append(f"c11.loft {p['sketch']} {p['k']}")
         elif k == "ExtrudedRing" and not case.get("touch"):
             reqs.append(f"c11.ring {p['n']} 1")
+        elif k == "NJoint":
+            reqs.append(f"c11.joint {p['k']}")
         name = self._table_name(case)
         if name:
             reqs.append(f"c11.shape {name}")
@@ -1340,6 +1393,13 @@ class C11(core.Check):
             if len(a) > 1 and p.get("sketch") not in ("Grid", "Annulus"):
                 if sorted(json.loads(a[1])) != impl["chopped"]:
                     return f"chopped axes of {k}({p.get('sketch', '')}): implementation {impl['chopped']}, model {a[1]}"
+        if k == "NJoint":
+            # the uniform hand model of a joint with any number of branches
+            a = next(it).split(" ")
+            if a[0] != "[" + ",".join(map(str, flat)) + "]":
+                return f"blocking of NJoint({p['k']}): implementation {impl['blocks']}, joint model {a[0]}"
+            if sorted(json.loads(a[1])) != impl["chopped"]:
+                return f"chop dispatch of NJoint({p['k']}): implementation {impl['chopped']}, joint model {a[1]}"
         if self._table_name(case):
             a = next(it).split(" ")
             if a[0] != "[" + ",".join(map(str, flat)) + "]":
@@ -1384,7 +1444,7 @@ class C11(core.Check):
         if k in LOFTED or k in STACKS:
             tag += ":" + case["p"]["sketch"]
         if k == "Chain":
-            tag += ":" + "+".join(l["op"] for l in case["p"]["links"])
+            tag += ":" + "+".join(l["op"] + ("~" if l.get("pre") else "") + ("c" if (l.get("pre") or {}).get("copy") else "") for l in case["p"]["links"])
         for key, mark in (("far", "far"), ("post", "post"), ("touch", "touch")):
             if case.get(key):
                 tag += "+" + mark
